@@ -73,6 +73,8 @@ def run_one(ctx, g, pos, shift, byname, variant_name=None, pos_as="list"):
         m = structure.multiplicity(fpos, sgname=variant_name, cell_choice=g.choice)
     else:
         m = structure.multiplicity(fpos, sgno=g.no, cell_choice=g.choice)
+    if not byname:
+        ctx.later("multiplicity", structure.multiplicity, [float(x) for x in fpos], None, g.no, g.choice)
     if m != exact:
         ctx.fail("multiplicity/Sg%d/%s" % (g.no, g.choice), "multiplicity(%r) = %r, orbit has %d points (position %s, %s)" % (
             fpos, m, exact, [str(p) for p in pos], ("sgname=%r" % variant_name) if byname else "by number"))
